@@ -257,6 +257,14 @@ def run(prop, tier):
         cat = catalog.load_events()
         gold = catalog.golden("enter_values.json")
         groups = make_groups(cat, gold, tier)
+        if tier == "quick":
+            # the Nanos6 task quantities and the user marks also belong to the quick tier
+            have = set(g.name for g in groups)
+            groups += [g for g in make_groups(cat, gold, "thorough") if g.name in ("nanos6-task", "ovni-mark") and g.name not in have]
+        only = os.environ.get("VERIF_C06_GROUPS")
+        if only:
+            groups = [g for g in make_groups(cat, gold, "thorough") if g.name in only.split(",")]
+            ctx.cap("debug filter VERIF_C06_GROUPS=%s" % only)
         # model part: two threads, CPUs A0 (+A1 in the thorough tier) and the virtual CPU
         mcpus = [(0, 1)] if tier == "quick" else [(0, 1), (1, 0)]
         mspec = [{"name": "A", "cpus": mcpus, "procs": [{"pid": 100, "threads": [101, 102]}]}]
